@@ -112,6 +112,8 @@ class Explorer:
                 err = ('crash', f'uncaught Python exception in harness: {e!r}\n' + traceback.format_exc())
             except RecursionError as e:
                 err = ('undecided', 'RecursionError in engine')
+            except z3.Z3Exception as e:
+                err = ('undecided', f'Z3Exception: {e}')
             except Exception as e:
                 err = ('crash', f'{type(e).__name__}: {e}\n' + traceback.format_exc())
             self.stats['paths'] += 1
